@@ -49,6 +49,9 @@ Definition reload_datetime (p : Z) (d : datetime_v) : dbres datetime_v :=
 Definition time_reloads_as_str : bool :=
   match sqlite_time_sql2py (sqlite_time_py2sql (mk_time 1 2 3 0)) with RStr _ => true | RVal _ => false end.
 
+(* does the translated SQLiteDateConverter.py2sql write the year with four digits (date(999, 12, 31) as 10 characters)? *)
+Definition date_text_pads_year : bool := Nat.eqb (length (sqlite_date_py2sql (mk_date 999 12 31))) 10.
+
 (* ---- Decimal: value = coefficient * 10^exponent; quantize to `scale` digits, ROUND_HALF_EVEN (pinned) ------------------- *)
 Definition dec : Type := (Z * Z)%type.
 Definition quantize (scale : Z) (d : dec) : dec :=
